@@ -157,6 +157,9 @@ func (m *Machine) tryRecv(ch *ichan) (v value, ok bool, success bool) {
 func (m *Machine) chanSend(fr *frame, ch *ichan, v value) {
 	m.yield(fr, "send")
 	v = copyVal(v)
+	if ch != nil {
+		m.raceRelease(ch)
+	}
 	if m.trySend(ch, v) {
 		return
 	}
@@ -190,6 +193,12 @@ func (m *Machine) chanRecv(fr *frame, instr *ssa.UnOp) value {
 		m.block(fr, fmt.Sprintf("chan receive (chan %d)", chanID(ch)), func() bool { return w.done })
 		v, ok = w.val, w.ok
 	}
+	if ch != nil {
+		m.raceAcquire(ch)
+		if ch.cap == 0 {
+			m.raceRelease(ch)
+		}
+	}
 	if !ok {
 		v = zero(elem)
 	}
@@ -208,6 +217,7 @@ func (m *Machine) chanClose(fr *frame, ch *ichan) {
 		panic(targetPanic{iface{m.P.runtimeErrorString, "close of closed channel"}})
 	}
 	ch.closed = true
+	m.raceRelease(ch)
 	for _, w := range ch.recvq {
 		if w.live() {
 			w.val, w.ok = nil, false
@@ -247,6 +257,11 @@ func (m *Machine) chanSelect(fr *frame, instr *ssa.Select) value {
 		}
 		return r
 	}
+	for _, c := range cases {
+		if c.send && c.ch != nil {
+			m.raceRelease(c.ch)
+		}
+	}
 	// which cases are ready?
 	var readyIdx []int
 	for i, c := range cases {
@@ -279,6 +294,7 @@ func (m *Machine) chanSelect(fr *frame, instr *ssa.Select) value {
 		if !success {
 			panic(engineError{"select: ready recv failed"})
 		}
+		m.raceAcquire(c.ch)
 		return result(pick, v, ok)
 	}
 	if !instr.Blocking {
@@ -317,6 +333,7 @@ func (m *Machine) chanSelect(fr *frame, instr *ssa.Select) value {
 	if w.isSend {
 		return result(w.idx, nil, false)
 	}
+	m.raceAcquire(w.ch)
 	return result(w.idx, w.val, w.ok)
 }
 
@@ -325,6 +342,7 @@ func (m *Machine) spawn(fr *frame, pos token.Pos, fn value, args []value) {
 	s := &m.sched
 	g := &goroutine{id: len(s.gs), wake: make(chan struct{}, 1), pos: pos, inRepo: fr.info.isRepo && !isHarnessFile(fr.info.file)}
 	s.gs = append(s.gs, g)
+	m.raceFork(m.curG(), g.id)
 	s.wg.Add(1)
 	go func() {
 		defer s.wg.Done()
